@@ -302,7 +302,7 @@ CLAIMED = {
    technique="Coq proof of fst.rs (hierarchy entries -> builder calls, callback dispatch, SignalWriter) + extracted-model correspondence on "
              "the dependency's real output; generated FST files vs listing computed from the design; corpus twins"),
  "C11": dict(
-   category="translation_validation",
+   category="proof",
    text="Coq theorems pinned in Properties/C11.v: read_signals_ops - whatever the section bytes are, when the GHW signal section reader "
         "(snapshot / cycle / directory / tailer sections, cycle delta arithmetic, signed LEB128, STD_LOGIC_LUT, VecBuffer) succeeds, "
         "its blocks and time table are what finishing an encoder yields after a history of time stamps, raw changes carrying the packed "
@@ -316,17 +316,24 @@ CLAIMED = {
         "vectors make exactly those per-bit updates, in file order, signal index = running sum of the distances minus one, symbol = "
         "STD_LOGIC_LUT code of the byte; composed with time_step_spec) and cycle_loop_vectors (a whole run of such cycles with their signed "
         "LEB128 time distances hands the store per cycle its time stamp and that step's trace); add_n_bit_change_entry, "
-        "check_min_state_spec, compress_template_spec (store side of the raw path). Not proved: "
-        "that the history is the one GHDL meant, "
-        "the header / string / type / hierarchy sections. Those are decided by running: the extracted model against "
+        "check_min_state_spec, compress_template_spec (store side of the raw path); snapshot_vectors. The hierarchy reader "
+        "(all of ghw/hierarchy.rs: string table, type table, well-known types, hierarchy section, signal tracker) is modelled "
+        "(Model/GhwHier.v) and composed with the signal sections into the load of a whole file (Model/GhwFile.v); pinned about it: "
+        "array_labels (the elements of an array signal are visited in declaration order, the k-th one labelled with its declared "
+        "index, left - k for a descending and left + k for an ascending range - finding D20, repaired), record_fields, "
+        "string_table_decoded (the prefix-compressed strings are reconstructed whatever the shared lengths), enum_bits_spec, "
+        "enum_lits_codes (an enumeration's width and binary codes). Not proved: a description of the hierarchy of every "
+        "declaration in terms of its type beyond these clauses, the cycle theorems for the scalar value types. Tie and oracle: the "
+        "extracted model of the whole loader against wellen on every generated GHW file, the corpus files and truncated / corrupted "
+        "headers (harness ghwhier / ghwfile vs model ghwh / ghwf); the extracted section model against "
         "ghw::signals::read_signals (hook with explicit decode information) on generated section bytes (both endians, delta cycles, "
         "backwards times, all value types) and on damaged sections, oracle = values of every variable after every cycle from the "
         "abstract history; complete GHW files generated from abstract designs (string table with prefix sharing, type table, hierarchy "
         "with all scope kinds and directions, snapshot, cycles with delta rounds, directory, tailer) whose loaded listing must equal "
         "the design; the corpus GHW files.",
    design_ref="DESIGN.md section 6, C11 and sections 12.5, 12.7",
-   note="Trusted: Coq kernel, extraction (ExtrOcamlBasic), OCaml driver, Rust harness, Python generators/oracles incl. the GHW file writer. The decode information produced by the unmodelled hierarchy reader is an input of the model (premise sigs_ok of the theorems).",
-   technique="Coq proof (section reader refines a history of well-formed store operations) + extracted-model correspondence on section bytes + generated GHW files vs listing computed from the design"),
+   note="Trusted: Coq kernel, extraction (ExtrOcamlBasic), OCaml driver, Rust harness, Python generators/oracles incl. the GHW file writer. Modelled, not verified: String::from_utf8_lossy on names (files whose names are not valid UTF-8 are skipped by the tie), float ranges of real subtypes (read and forgotten), allocation failure for signal tables above 2^20 entries (Panic in the model).",
+   technique="Coq proof (value path from the bytes of cycles and snapshot to the store; array labels, record fields, string table, enum codes of the hierarchy reader) + extracted model of the whole GHW loader vs wellen on generated, corpus and corrupted files + listing computed from the design"),
  "C12": dict(
    category="translation_validation",
    text="Coq theorems pinned in Properties/C12.v: vcd_fst_same_report / vcd_fst_same_report_rs (the wavemem store fed VCD text and the FST "
